@@ -396,7 +396,7 @@ def natural_run(tdgl, p, tmp=None, opts=None):
     layer_asked = dict(xi=p.get("xi", 1.0), lam=p.get("lam", 2.0), d=p.get("d", 0.1))        # in units of `scale`
     dev = devices.make(tdgl, p.get("dev", "bar"), mel=p.get("mel", 0.8), probes=0,
                        length_units=p.get("length_units", "um"), scale=scale, **layer_asked)
-    if p.get("layer_edit") or p.get("translate"):
+    if p.get("layer_edit") or p.get("translate") or p.get("postprocess"):
         import copy as _copy
 
         dev = _copy.deepcopy(dev)          # the shared, cached device must not be edited
